@@ -139,12 +139,32 @@ type call struct {
 	done   chan outcome
 }
 
+// callerMode says what the caller's own context looks like in the current case: "plain" (cancellable only),
+// "far-deadline" (a deadline ten minutes away: the client's time-out still has to end the call) or
+// "per-call-timeout" (the time-out is given in the ClientContext instead of on the client).
+var callerMode = "plain"
+
+func drawCallerMode(rt *rapid.T) string {
+	callerMode = rapid.SampledFrom([]string{"plain", "plain", "far-deadline", "per-call-timeout", "far-deadline+per-call-timeout"}).Draw(rt, "callerContext")
+	return callerMode
+}
+
 func startCall(c *core.Client, name, tag string, t0 time.Time) *call {
 	ctx, cancel := context.WithCancel(context.Background())
+	mode := callerMode
+	if strings.Contains(mode, "far-deadline") {
+		var cancelDeadline context.CancelFunc
+		ctx, cancelDeadline = context.WithDeadline(ctx, time.Now().Add(10*time.Minute))
+		inner := cancel
+		cancel = func() { cancelDeadline(); inner() }
+	}
 	k := &call{tag: tag, cancel: cancel, done: make(chan outcome, 1)}
 	go func() {
 		cc := core.NewClientContext()
 		cc.ReturnType = []reflect.Type{stringType}
+		if strings.Contains(mode, "per-call-timeout") && c.Timeout > 0 {
+			cc.Timeout = c.Timeout
+		}
 		res, err := c.InvokeContext(core.WithContext(ctx, cc), name, []interface{}{tag})
 		o := outcome{err: err, at: time.Since(t0)}
 		if err == nil && len(res) == 1 {
@@ -279,7 +299,8 @@ func TestPeerFaults(t *testing.T) {
 		term := rapid.SampledFrom(terminators).Draw(rt, "terminator")
 		termAfter := time.Duration(rapid.IntRange(5, 60).Draw(rt, "terminateAfterMs")) * time.Millisecond
 		id := atomic.AddInt64(&caseSeq, 1)
-		canon := fmt.Sprintf("%s client timeout=%dms, %d calls pending, peer %s; terminated by %s after %v", kind, timeoutMs, n, b.name, term, termAfter)
+		canon := fmt.Sprintf("%s client timeout=%dms, %d calls pending, peer %s; terminated by %s after %v; caller context %s", kind, timeoutMs, n, b.name, term, termAfter, drawCallerMode(rt))
+		defer func() { callerMode = "plain" }()
 		ev.S.Begin("peer-faults", canon)
 
 		base := settle(0, 0)
@@ -434,7 +455,7 @@ func TestPeerFaults(t *testing.T) {
 		if problem == "" {
 			problem = leakReport(base)
 		}
-		ev.S.Case("peer-faults", canon, !b.answered, "peer="+kind+"/"+b.name, "terminator="+term, fmt.Sprintf("timeout=%v", timeoutMs > 0))
+		ev.S.Case("peer-faults", canon, !b.answered, "peer="+kind+"/"+b.name, "terminator="+term, fmt.Sprintf("timeout=%v", timeoutMs > 0), "caller-context="+callerMode)
 		report(rt, "peer-faults", "TestPeerFaults", canon, problem)
 	})
 }
@@ -1105,7 +1126,8 @@ func TestHTTPPeerFaults(t *testing.T) {
 		term := rapid.SampledFrom(terminators).Draw(rt, "terminator")
 		termAfter := time.Duration(rapid.IntRange(5, 60).Draw(rt, "terminateAfterMs")) * time.Millisecond
 		id := atomic.AddInt64(&caseSeq, 1)
-		canon := fmt.Sprintf("http client (fasthttp=%v) timeout=%dms, %d calls pending, server %s; terminated by %s", tp.FastHTTPClient(), timeoutMs, n, b.name, term)
+		canon := fmt.Sprintf("http client (fasthttp=%v) timeout=%dms, %d calls pending, server %s; terminated by %s; caller context %s", tp.FastHTTPClient(), timeoutMs, n, b.name, term, drawCallerMode(rt))
+		defer func() { callerMode = "plain" }()
 		ev.S.Begin("http-peer-faults", canon)
 		p := startHTTPPeer()
 		p.mode.Store(b)
@@ -1192,7 +1214,7 @@ func TestHTTPPeerFaults(t *testing.T) {
 		}
 		client.Abort()
 		p.ln.Close()
-		ev.S.Case("http-peer-faults", canon, !b.answered, "http-peer="+b.name, "http-terminator="+term)
+		ev.S.Case("http-peer-faults", canon, !b.answered, "http-peer="+b.name, "http-terminator="+term, "caller-context="+callerMode)
 		report(rt, "http-peer-faults", "TestHTTPPeerFaults", canon, problem)
 	})
 }
